@@ -4,6 +4,7 @@ import Ww.Driver.Sys
 import Ww.Driver.C12
 import Ww.Driver.C15
 import Ww.Driver.C16
+import Ww.Driver.C02
 open Ww.Driver
 
 def dispatch (l : Line) : List Verdict :=
@@ -22,6 +23,7 @@ def dispatch (l : Line) : List Verdict :=
   | "errpage" => handleErrPage l
   | "cors" => handleCors l
   | "proxycmds" => handleProxyCmds l
+  | "cb" => handleCb l
   | k => [Verdict.bad s!"unknown kind {k}"]
 
 partial def loop (h : IO.FS.Stream) (out : IO.FS.Stream) (i : Nat) : IO Unit := do
